@@ -102,6 +102,8 @@ def to_term(v, prog, path=None):
                 return ('atom', '$fair')
             if isinstance(a, Const):
                 return ('atom', a.v)
+            if isinstance(a, Sym) and a.meta and a.meta[0] == 'apname':
+                return ('atom', 'p')
             raise Inconclusive('term', 'atom %r' % (a,), '')
         kids = []
         for a in v.args:
